@@ -335,6 +335,110 @@ def int_literal_float_bounds(h: Harness, rng):
                 break
 
 
+def boundary_genes(h: Harness, rng):
+    """every genotype is a legal genotype: genes at the ends of their range (0, sys.maxsize) and constant genotypes map to a
+    well-typed program or fail with the library's error -- on grammars with PLAIN float / int / str fields too, whose values are
+    computed from the genes by the derived primitives (normalvariate, random_float, ...)"""
+    import linear
+    from linear import GE, SGE, Stack, safe
+    from geneticengine.random.sources import NativeRandomSource
+    C = gram.ClassSpec
+    specs = [gram.Spec([C("A0", True, None), C("L", False, 0, [("x", "float"), ("k", "int")]), C("N", False, 0, [("l", ("cls", 0)), ("r", ("cls", 0))])], 0, [1, 2]),
+             gram.Spec([C("A0", True, None), C("M", False, 0, [("y", "float"), ("s", "str"), ("z", "float")]), C("W", False, 0, [("e", ("cls", 0)), ("f", "float"), ("b", "bool")])], 0, [1, 2])]
+    top = sys.maxsize
+    patterns = [lambda n: [0] * n, lambda n: [top] * n, lambda n: [0, top] * (n // 2 + 1), lambda n: [top, 0] * (n // 2 + 1), lambda n: [top - 1] * n,
+                lambda n: [1] * n, lambda n: [0, 0, top, 1] * (n // 4 + 1), lambda n: [rng.choice([0, top, 1, top - 1, rng.randrange(top)]) for _ in range(n)]]
+    for spec in specs:
+        b = gram.build(spec)
+        g = b.extract()
+        line_spec = gram.spec_sx(spec)
+        for kind in ("grow", "full", "pigrow"):
+            shared = NativeRandomSource(1)
+            reps = [("GE", GE(g, synth.make_decider(kind, 3, shared, g), gene_length=32)), ("SGE", SGE(g, synth.make_decider(kind, 3, shared, g), gene_length=16)),
+                    ("Stack", Stack(g, gene_length=128))]
+            for name, rep in reps:
+                for pi, pat in enumerate(patterns):
+                    proto = rep.create_genotype(shared)
+                    if isinstance(proto.dna, dict):
+                        geno = type(proto)(dna={k: pat(len(v))[:len(v)] for k, v in proto.dna.items()})
+                    else:
+                        geno = type(proto)(dna=pat(len(proto.dna))[:len(proto.dna)])
+                    import signal
+
+                    def alarm(signum, frame):
+                        raise TimeoutError()
+                    old_handler = signal.signal(signal.SIGALRM, alarm)
+                    signal.alarm(8)
+                    try:
+                        st, p = safe(lambda: rep.genotype_to_phenotype(geno))
+                    except TimeoutError:
+                        st, p = "err", "foreign:does-not-terminate"
+                    finally:
+                        signal.alarm(0)
+                        signal.signal(signal.SIGALRM, old_handler)
+                    if st == "err" and p == "foreign:TimeoutError":
+                        p = "foreign:does-not-terminate"
+                    site = f"{name}.genotype_to_phenotype"
+                    h.count(f"boundary-genes:{name}:{st}")
+                    h.seen(f"boundary:{name}:{kind}:{pi}:{sx(line_spec)[:30]}", nontrivial=True)
+                    if st == "err" and p.startswith("foreign"):
+                        h.fail(site, "foreign-error", f"a genotype of boundary genes (pattern #{pi}: {str(geno.dna)[:80]}...) made the mapping "
+                               + ("run for more than 8 s without returning (it reads the genome round and round)" if p.endswith("does-not-terminate") else f"fail with {p}")
+                               + " instead of returning a program or the library's error", [sx(line_spec), name, kind, pi])
+                    elif st == "ok":
+                        c = gram.canon(p, b)
+                        h.holds(site, "ill-typed-program", ["prop_wt_struct" if name == "Stack" else "prop_wt", line_spec, c],
+                                f"mapped program is not well-typed: {sx(c)[:300]}", [sx(line_spec), name, kind, pi])
+
+
+def cooperative_gp(h: Harness, rng):
+    """CooperativeGP evolves two species over two DIFFERENT grammars; in every round, every program handed to the user's
+    function in the first position is a well-typed program of grammar 1 and in the second position one of grammar 2 -- and so
+    are the two programs search() returns"""
+    import pargrammar
+    from props import steps_common as sc
+    from geneticengine.algorithms.gp.cooperativegp import CooperativeGP
+    from geneticengine.evaluation.budget import EvaluationBudget
+    from geneticengine.grammar.grammar import extract_grammar
+    from geneticengine.random.sources import NativeRandomSource
+    from geneticengine.representations.tree.treebased import TreeBasedRepresentation
+    g1 = extract_grammar([sc.Leaf, sc.Node], sc.Root)
+    g2 = pargrammar.grammar()
+    _, b1 = gram.reflect([sc.Leaf, sc.Node], sc.Root)
+    _, b2 = pargrammar.built()
+    s1, s2 = gram.spec_sx(b1.spec), gram.spec_sx(b2.spec)
+    for rounds, (n1, n2) in ((1, (4, 4)), (3, (4, 6)), (2, (5, 3))):
+        r = NativeRandomSource(rng.randrange(10**6))
+        seen = {"calls": 0, "bad": []}
+
+        def battle(a, b_, seen=seen):
+            seen["calls"] += 1
+            if not isinstance(a, sc.Root) and len(seen["bad"]) < 3:
+                seen["bad"].append(("first", repr(a)[:80]))
+            if not isinstance(b_, pargrammar.E) and len(seen["bad"]) < 3:
+                seen["bad"].append(("second", repr(b_)[:80]))
+            return float(len(repr(a)) - len(repr(b_)))
+        desc = f"CooperativeGP(population sizes {n1}/{n2}, coevolutions={rounds}) over two different grammars"
+        try:
+            co = CooperativeGP(g1, g2, battle, TreeBasedRepresentation(g1, synth.make_decider("grow", 4, r, g1)), TreeBasedRepresentation(g2, synth.make_decider("grow", 4, r, g2)),
+                               population1_size=n1, population2_size=n2, coevolutions=rounds, random=r,
+                               kwargs1={"budget": EvaluationBudget(3 * n1)}, kwargs2={"budget": EvaluationBudget(3 * n2)})
+            best1, best2 = co.search()
+        except Exception as e:  # noqa: BLE001
+            h.fail("CooperativeGP.search", "foreign-error", f"{desc}: {type(e).__name__}: {e}"[:300], [rounds, n1, n2])
+            continue
+        h.count("cooperative-gp-runs")
+        h.seen(f"cooperative:{rounds}:{n1}:{n2}", nontrivial=seen["calls"] > 10)
+        if seen["bad"]:
+            pos, what = seen["bad"][0]
+            h.fail("CooperativeGP.search", "ill-typed-program", f"{desc}: the user's function was handed {what} in the {pos} position, which is not a program of "
+                   f"grammar {1 if pos == 'first' else 2} ({len(seen['bad'])}+ such calls of {seen['calls']})", [rounds, n1, n2])
+            continue
+        for which, (p, b, line) in enumerate(((best1, b1, s1), (best2, b2, s2)), start=1):
+            h.holds("CooperativeGP.search", "ill-typed-program", ["prop_wt", line, gram.canon(p, b)],
+                    f"{desc}: the program returned for species {which} is not well-typed for grammar {which}: {repr(p)[:160]}", [rounds, n1, n2, which])
+
+
 def corpus():
     """fixed witnesses of type shapes the generator only meets by luck: size-refined lists whose elements are lists /
     refined values / tuples / unions, nested wrappers"""
@@ -365,6 +469,8 @@ def run(h: Harness):
     check_evaluators(h)
     preset_scenario(h, rng)
     int_literal_float_bounds(h, rng)
+    boundary_genes(h, rng)
+    cooperative_gp(h, rng)
     retarget_scenario(h, rng)
     for spec in corpus():
         b = gram.build(spec)
